@@ -29,11 +29,14 @@ def interp_analysis(repo: Repo) -> Dict[str, Any]:
     eng = engine(repo)
     effs, ret, key = eng.run_fn("evaluation", "Evaluator.evaluate", [of_kind("Evaluator"), STRUCT])
     escapes = []
+    origins: Dict[Tuple[str, str], List[str]] = {}
     for exc, tag in sorted(effs):
         if exc in ALLOWED or exc in ASSERTION_CLASSES or tag in SETUP_TAGS:
             continue
         escapes.append((tag or "Evaluator.evaluate", exc, short_why(eng.explain(key, (exc, tag)))))
-    out = {"engine": eng, "escapes": escapes, "all": sorted(effs), "key": key}
+        origins.setdefault((tag or "Evaluator.evaluate", exc), [])
+        origins[(tag or "Evaluator.evaluate", exc)] = sorted(set(origins[(tag or "Evaluator.evaluate", exc)]) | set(eng.origins(key, (exc, tag))))
+    out = {"engine": eng, "escapes": escapes, "all": sorted(effs), "key": key, "origins": origins}
     _cache[k] = out
     return out
 
@@ -87,7 +90,8 @@ def check_interp_boundary(repo: Repo, run: Any, rule: str, only_exc: Optional[Se
             node_site = ev.loc(ev.func(tag))
         except AnchorMissing:
             pass
-        run.ob(rule, f"{tag}|{exc}", False, f"{exc} can leave {tag} uncaught and escape Evaluator.evaluate: {why}", node_site)
+        orgs = info["origins"].get((tag, exc), [])
+        run.ob(rule, f"{tag}|{exc}", False, f"{exc} can leave {tag} uncaught and escape Evaluator.evaluate: {why}", node_site, origins=orgs)
     run.unit(f"{rule}.functions_analysed", len(eng.functions_analysed))
     run.unit(f"{rule}.unresolved_calls", sorted(eng.unresolved))
     run.floor(rule, n, floor)
